@@ -262,7 +262,8 @@ mod mpp {
 	//! per-hash accumulator sees and in which order.  After every step everything is delivered
 	//! (`Net::settle`) and what the RECEIVER did is read off its outbound messages and events:
 	//!   update_fail_htlc -> `fail:<id>`, update_fulfill_htlc -> `fulfil:<id>`,
-	//!   Event::PaymentClaimable -> `claimable:<amt>:<deadline>`, Event::PaymentClaimed -> `claimed:<amt>`.
+	//!   Event::PaymentClaimable -> `claimable:<amt>:<deadline>`, Event::PaymentClaimed -> `claimed:<amt>`,
+	//!   Event::HTLCHandlingFailed { failure_reason } -> `why:<LocalHTLCFailureReason>` after the fail tokens.
 	//! `id = rank(channel_id among the receiver's channels) * 1_000_000 + htlc_id`.
 	//!
 	//! Impl-side oracles (no Lean model involved) are in `Scn::{op_part, op_claim, absorb}` and `bad_part`.
@@ -490,6 +491,8 @@ mod mpp {
 		/// PaymentClaimed: (amount_msat, sum of htlcs[].counterparty_skimmed_fee_msat, sender_intended_total_msat, sum of htlcs[].value_msat)
 		claimed: Vec<(u64, u64, u64, u64)>,
 		handling_failed: Vec<String>,
+		/// (prev_channel_ids, LocalHTLCFailureReason name) of every HTLCHandlingFailed { failure_type: Receive } event
+		why: Vec<(Vec<lightning::ln::types::ChannelId>, String)>,
 		trouble: Option<String>,
 	}
 
@@ -498,6 +501,11 @@ mod mpp {
 			let mut t: Vec<String> = vec![];
 			for (a, k, d) in &self.claimable { t.push(format!("claimable:{}:{}:{}", a, k, d)); }
 			for i in &self.fails { t.push(format!("fail:{}", i)); }
+			if !self.fails.is_empty() {
+				// the reason the HTLCs of this step were failed back with (one fail-back site per op)
+				let mut r: Vec<&str> = self.why.iter().map(|w| w.1.as_str()).collect(); r.sort(); r.dedup();
+				t.push(format!("why:{}", if r.is_empty() { "?".to_string() } else { r.join("+") }));
+			}
 			for i in &self.fulfils { t.push(format!("fulfil:{}", i)); }
 			for (a, k, t2, _) in &self.claimed { t.push(format!("claimed:{}:{}:{}", a, k, t2)); }
 			if t.is_empty() { "none".into() } else { t.join(" ") }
@@ -527,7 +535,14 @@ mod mpp {
 				Event::PaymentClaimed { payment_hash, amount_msat, htlcs, sender_intended_total_msat, .. } => {
 					if payment_hash == hash { s.claimed.push((*amount_msat, htlcs.iter().map(|h| h.counterparty_skimmed_fee_msat).sum(), sender_intended_total_msat.unwrap_or(0), htlcs.iter().map(|h| h.value_msat).sum())); } else { s.trouble = Some("PaymentClaimed for a foreign hash".into()); }
 				},
-				Event::HTLCHandlingFailed { failure_type, failure_reason, .. } => s.handling_failed.push(format!("{:?} {:?}", failure_type, failure_reason)),
+				Event::HTLCHandlingFailed { failure_type, failure_reason, prev_channel_ids, .. } => {
+					let ft = format!("{:?}", failure_type); let fr = format!("{:?}", failure_reason);
+					if ft.starts_with("Receive") {
+						let name: String = match fr.find("reason: ") { Some(k) => fr[k + 8..].chars().take_while(|c| c.is_alphanumeric()).collect(), None => fr.clone() };
+						s.why.push((prev_channel_ids.clone(), name));
+					}
+					s.handling_failed.push(format!("{} {}", ft, fr));
+				},
 				_ => {},
 			}
 		}
@@ -903,6 +918,8 @@ mod mpp {
 			for i in &all.fulfils { if Some(*i) == late_id { of_part.fulfils.push(*i) } else { of_claim.fulfils.push(*i) } }
 			of_claim.claimed = all.claimed.clone();
 			of_part.claimable = all.claimable.clone();
+			let late_cid = w.net.chans[chan].2;
+			for (cids, name) in &all.why { if cids.contains(&late_cid) { of_part.why.push((cids.clone(), name.clone())) } else { of_claim.why.push((cids.clone(), name.clone())) } }
 			if !early.nothing() { rec.oracle_fail(format!("[{}] `{}` with its monitor updates still in progress already produced {}", self.kind, claim_op, early.answer())); }
 			self.claim_oracles(w, rec, &of_claim, &claim_op, height, known);
 			rec.case(&claim_op, &of_claim.answer(), if !of_claim.fulfils.is_empty() { "claim:fulfil-async" } else if !of_claim.fails.is_empty() { "claim:failall" } else { "claim:none" }, true);
@@ -1116,6 +1133,7 @@ mod mpp {
 	const KINDS: &[(&str, u64)] = &[
 		("exact", 22), ("overlast", 6), ("tick-between", 10), ("under", 9), ("over", 9), ("bad-total", 8), ("tlv-mix", 10), ("even-all", 8),
 		("secret-mix", 6), ("deadline", 12), ("unmodelled", 9), ("during-claim", 7), ("skim", 24), ("skim-under", 7), ("overfwd", 7),
+		("deadline-order", 9),
 	];
 	/// schedules that leave HTLCs stuck in the receiver's channels: run as the last scenario of a network
 	const LAST_KINDS: &[&str] = &["claim-incomplete", "deadline-drop", "under-claim"];
@@ -1357,6 +1375,38 @@ mod mpp {
 				}
 				s.finish(w);
 			},
+			"deadline-order" => {
+				// 2-3 direct parts over DISTINCT channels with DIFFERENT final CLTV expiries; the earliest-expiring part sits on
+				// the numerically lowest channel id (`lo_first`) or not (then it is not the first element of the sorted set), in
+				// either arrival order; then single blocks up to the ADVERTISED claim_deadline - 1 and claim_funds: every part
+				// must still be there and be fulfilled (oracles: claim_deadline = min cltv - 39, no fail-back below it, claim total)
+				let k = (2 + rng.below(2) as usize).min(nroutes);
+				let total = pick_total(rng, k);
+				let amts = split(rng, total, k);
+				let min = pick_min(rng, total);
+				let mut s = Scn::new(w, rec, rng, kind, min, false, 7200);
+				let mut by_rank: Vec<usize> = (0..nroutes).collect();
+				by_rank.sort_by_key(|r| w.rank[w.routes[*r].1]);
+				// k distinct routes, in channel-id order
+				while by_rank.len() > k { let i = rng.below(by_rank.len() as u64) as usize; by_rank.remove(i); }
+				let lo_first = rng.chance(1, 3);
+				let base = 60 + rng.below(5) as u32;
+				let mut deltas: Vec<u32> = vec![base];
+				for i in 1..k { let d = deltas[i - 1] + 1 + rng.below(6) as u32; deltas.push(d); }
+				// deltas ascending = the earliest expiry on the lowest channel id; otherwise move the earliest one off the front
+				if !lo_first { if k == 3 && rng.chance(1, 2) { deltas.swap(0, 1); } else { deltas.reverse(); } }
+				let mut parts: Vec<PartSpec> = (0..k).map(|i| PartSpec { route: by_rank[i], amt: amts[i], total, delta: deltas[i], sec: 0, tlv: Tlv::No, via: None, strict: false, declare: 0 }).collect();
+				// arrival order: any
+				for i in (1..parts.len()).rev() { let j = rng.below(i as u64 + 1) as usize; parts.swap(i, j); }
+				if send_all(w, rec, rng, &mut s, &parts, false) == PartOut::Claimable {
+					let d = s.deadline.unwrap_or(0);
+					if rng.chance(1, 4) { s.op_tick(w, rec); }
+					s.blocks_to(w, rec, d.saturating_sub(1));
+					if rng.chance(1, 4) { s.op_tick(w, rec); }
+					s.op_claim(w, rec, rng.chance(1, 5));
+				}
+				s.finish(w);
+			},
 			"during-claim" => {
 				// the whole set arrives over ONE channel; a late part comes over another one while the claim is in flight
 				let k = 1 + rng.below(2) as usize;
@@ -1549,7 +1599,7 @@ mod mpp {
 	Every part is its own single-path payment with the same hash+secret and a chosen total_msat; after each op everything is delivered and the receiver's update_fail/update_fulfill/PaymentClaimable/PaymentClaimed are recorded. \
 	Schedules: {}. exact = 1-4 part split in random order over random channels with random final CLTV deltas, blocks between parts; overlast = last part overshoots; tick-between = timer tick fails the held parts, later parts start a new set; under = under-payment then tick/failback; \
 	over = extra part(s) after completion; bad-total = a part with another total_msat; tlv-mix = even/odd custom TLV mismatches; even-all = same even TLV on all parts then claim 0 / claim 1; secret-mix = second valid secret for the same hash; \
-	during-claim = the set arrives over one channel, claim_funds runs with the receiver's monitor updates held InProgress on that channel, a new part arrives over another channel (failed: the hash is in pending_claiming_payments), then the updates complete (fulfils + PaymentClaimed are attributed to the claim line, the late part's failure to its part line); deadline = single blocks up to claim_deadline-1 then claim, or up to claim_deadline (parts fail by their own cltv) then claim/failback/tick/more blocks; claim-incomplete, under-claim, deadline-drop = claims that drop HTLCs silently (network abandoned afterwards); \
+	during-claim = the set arrives over one channel, claim_funds runs with the receiver's monitor updates held InProgress on that channel, a new part arrives over another channel (failed: the hash is in pending_claiming_payments), then the updates complete (fulfils + PaymentClaimed are attributed to the claim line, the late part's failure to its part line); deadline-order = 2-3 direct parts over distinct channels with different final CLTV expiries, the earliest-expiring one on the lowest channel id or (2 of 3) not, any arrival order, single blocks up to the ADVERTISED claim_deadline-1, then claim (must fulfil all); deadline = single blocks up to claim_deadline-1 then claim, or up to claim_deadline (parts fail by their own cltv) then claim/failback/tick/more blocks; claim-incomplete, under-claim, deadline-drop = claims that drop HTLCs silently (network abandoned afterwards); \
 	complete sets end with claim / double claim / claim+failback / failback / failback+claim / ticks+claim / blocks+claim / claim+new part under the same hash. \
 	skim = every part through the intercepting node, complete on the sender-intended amounts although less arrived, then 1-3 timer ticks, single blocks with 0-2 ticks after each up to a chosen height <= claim_deadline-1, then claim / claim+tick / failback / run into the deadline (half of the ticks+claim tails of the other schedules do the same walk); skim-under = skimmed parts that stay below total_msat, then tick / block+tick / failback; overfwd = over-paying forwards whose VALUES reach total_msat while the sender-intended amounts do not (held, failed by the tick); unmodelled (impl oracle only, no part op): wrong payment secret (1 bit flipped), total_msat below the invoice minimum, expired invoice, each alone or as the completing part of a held set. Impl oracles: PaymentClaimable only for complete sets (sum intended >= total_msat) with amount = sum of values, counterparty_skimmed_fee_msat = sum of skims, deadline = min cltv - 39, and conversely a set that completes IS announced; a PaymentClaimable set loses no HTLC to a timer tick or a block below its claim_deadline (message carries the op history); an incomplete set is failed by the tick; claim below the deadline fulfils every part and yields PaymentClaimed with the announced amount / skim / total_msat and balance delta = amount; the receive-side amount test matches value (+ skim when allowed) >= onion amount. Three probes on throw-away networks are in the notes (never in the compared stream): probe_inconsistent_claim, probe_timer_ticks_u8, probe_unsorted_incomplete_claim. distinct = distinct non-trivial op lines",
 			done, worlds, abandoned, per_world, ks.join(" ")));
